@@ -133,9 +133,40 @@ fn close_scenario(flavor: Flavor, scen: u64, seed: u64) -> (Findings, Value) {
         }
     };
     let mut ids = seed << 20;
-    let name = ["close-idle", "close-after-history", "concurrent-closers", "operations-racing-close", "drop-without-close", "close-with-pending-buffer"][scen as usize % 6];
+    // a seventh, directed scenario replaces every other "close-idle": the closer is parked between its
+    // clear() and its stop signal while another thread's insert is admitted, so that entries are resident
+    // when close() returns
+    let scen = if scen % 12 == 6 && flavor.gates_ok() { 6 } else { scen % 6 };
+    let name = ["close-idle", "close-after-history", "concurrent-closers", "operations-racing-close", "drop-without-close", "close-with-pending-buffer", "insert-admitted-inside-close"][scen as usize];
     phase("ops");
-    match scen % 6 {
+    match scen {
+        6 => {
+            warm(d.as_ref(), &mut rng, &mut ids, 20);
+            let gate = sched::Gate::new();
+            sched::arm_gate_for_role("close:after_clear", 9, gate.clone());
+            let h = d.clone_handle();
+            let closer = std::thread::Builder::new().name("closer".into()).spawn(move || {
+                sched::set_role(9);
+                h.close()
+            }).unwrap();
+            phase("gate");
+            let fired = gate.wait_arrival(Duration::from_secs(5));
+            if fired {
+                for k in [3u64, 7, 11] {
+                    ids += 1;
+                    let _ = d.try_insert(k, Tracked::new(ids, k), 1, if k == 7 { Duration::from_secs(3600) } else { Duration::ZERO });
+                }
+                let _ = crate::driver::wait_retry(d.as_ref(), Duration::from_secs(20));
+            }
+            gate.open();
+            sched::disarm_all();
+            phase("close");
+            match closer.join() {
+                Ok(Err(e)) => f.add("C12", "close/error", format!("{name}: close() returned Err({e})")),
+                Err(_) => f.add("C12", "close/panicked", format!("{name}: close() panicked")),
+                _ => {}
+            }
+        }
         0 => {}
         1 => {
             let n = rng.range(10, 300);
@@ -222,8 +253,12 @@ fn close_scenario(flavor: Flavor, scen: u64, seed: u64) -> (Findings, Value) {
         }
     }
     phase("close");
-    if scen % 6 != 4 {
-        if scen % 6 != 2 && scen % 6 != 3 {
+    let mut resident_after_close = 0u64;
+    if scen == 6 {
+        resident_after_close = d.snapshot().store.len() as u64;
+    }
+    if scen != 4 {
+        if scen != 2 && scen != 3 && scen != 6 {
             if let Err(e) = d.close() {
                 f.add("C12", "close/error", format!("{name}: close() returned Err({e})"));
             }
@@ -235,7 +270,7 @@ fn close_scenario(flavor: Flavor, scen: u64, seed: u64) -> (Findings, Value) {
     drop(d);
     if !workers_gone(flavor, Duration::from_secs(20)) {
         let c = counters::snapshot();
-        f.add("C12", if scen % 6 == 4 { "workers/alive-after-drop" } else { "workers/alive-after-close" }, format!("{name}: workers still running 20 s later: cache {}/{} policy {}/{} exited", c.CACHE_WORKERS_EXITED, c.CACHE_WORKERS_STARTED, c.POLICY_WORKERS_EXITED, c.POLICY_WORKERS_STARTED));
+        f.add("C12", if scen == 4 { "workers/alive-after-drop" } else { "workers/alive-after-close" }, format!("{name}: workers still running 20 s later: cache {}/{} policy {}/{} exited", c.CACHE_WORKERS_EXITED, c.CACHE_WORKERS_STARTED, c.POLICY_WORKERS_EXITED, c.POLICY_WORKERS_STARTED));
     } else if flavor == Flavor::Sync {
         // OS threads really gone
         let t0 = Instant::now();
@@ -266,7 +301,7 @@ fn close_scenario(flavor: Flavor, scen: u64, seed: u64) -> (Findings, Value) {
     if c.WORKERS_PANICKED > 0 {
         f.add("C12", "workers/panicked", format!("{name}: {} workers ended by panic", c.WORKERS_PANICKED));
     }
-    (f, json!({"scenario": name, "flavor": flavor.name(), "config": format!("{cfg:?}"), "seed": seed}))
+    (f, json!({"scenario": name, "flavor": flavor.name(), "config": format!("{cfg:?}"), "seed": seed, "resident_after_close": resident_after_close}))
 }
 
 // =============================================================================================
@@ -607,6 +642,9 @@ fn run_scenarios(ctx: &Ctx, rng: Rng, rep: &mut Report, kind: &str, count: u64, 
                 rep.count(&format!("lc_{kind}_{}", flavor.name()));
                 if let Some(n) = desc.get("scenario").and_then(|s| s.as_str()) {
                     rep.count(&format!("lc_scenario_{n}"));
+                }
+                if let Some(n) = desc.get("resident_after_close").and_then(|s| s.as_u64()) {
+                    rep.add("lc_entries_resident_when_close_returned", n);
                 }
                 if let Some(n) = desc.get("wait_ok").and_then(|s| s.as_u64()) {
                     rep.add("lc_wait_ok", n);
